@@ -225,15 +225,20 @@ def _dict_rows(cdf: ast.FunctionDef) -> bool:
             hits.append(n)
     if len(hits) != 1:
         raise Untranslatable(ob, f"expected one `if isinstance(row, dict)` in the VALUES loop, found {len(hits)}")
-    body = hits[0].body
-    if hits[0].orelse or len(body) != 1 or not isinstance(body[0], ast.Assign) or ast.unparse(body[0].targets[0]) != "row":
+    if hits[0].orelse:
+        raise Untranslatable(ob, "unsupported dict-row conversion (else branch)")
+    # every assignment to `row` reachable inside the dict branch (the branch may itself decide between several)
+    assigns = [n for st in hits[0].body for n in ast.walk(st) if isinstance(n, ast.Assign) and len(n.targets) == 1 and ast.unparse(n.targets[0]) == "row"]
+    others = [st for st in hits[0].body if not isinstance(st, (ast.Assign, ast.If))]
+    if not assigns or others:
         raise Untranslatable(ob, "unsupported dict-row conversion")
-    v = ast.unparse(body[0].value)
-    if v == "row.values()":
-        return False
-    if v in ("[row.get(name) for name in column_mapping]", "[row[name] for name in column_mapping]", "[row.get(name) for name in dict_row_keys]"):
-        return True
-    raise Untranslatable(ob, f"unsupported dict-row conversion {v!r}")
+    by_key = ("[row.get(name) for name in column_mapping]", "[row[name] for name in column_mapping]", "[row.get(name) for name in dict_row_keys]")
+    vals = [ast.unparse(a.value) for a in assigns]
+    if any(v not in by_key and v != "row.values()" for v in vals):
+        raise Untranslatable(ob, f"unsupported dict-row conversion {[v for v in vals if v not in by_key][0]!r}")
+    # by key only if EVERY path looks the values up by column name; one positional path makes the layout positional
+    # for some rows (the model then takes the conservative reading: positional)
+    return all(v in by_key for v in vals)
 
 
 def _cells_through_lit(cdf: ast.FunctionDef) -> None:
